@@ -296,14 +296,14 @@ func c05WrapScenario() *explore.Scenario {
 				if !st.serverNegotiate() {
 					return
 				}
-				first := true
+				unanswered := 0
 				for {
 					w, ok := st.serverRead()
 					if !ok {
 						break
 					}
-					if first {
-						first = false // never answered
+					if unanswered < 2 {
+						unanswered++ // the first two requests are never answered
 						continue
 					}
 					st.serverReply(w)
@@ -317,12 +317,22 @@ func c05WrapScenario() *explore.Scenario {
 			hung := &callResult{ID: 2, Abandon: true}
 			hctx, hcancel := context.WithCancel(context.Background())
 			vsched.Go("hung", func() { st.call(hctx, hung) })
+			// a second never-answered call, which its caller abandons as soon
+			// as the request is on the wire: its tag stays unanswered too
+			gone := &callResult{ID: 4, Abandon: true}
+			gctx, gcancel := vsched.WithCancel(context.Background())
+			vsched.Go("abandoned", func() {
+				vsched.WaitFor("first-on-wire", st.srvObj(), func() bool { return len(st.wire) >= 1 })
+				st.call(gctx, gone)
+			})
 			vsched.Go("caller", func() {
-				// let the never-answered request reach the wire first
-				vsched.WaitFor("first-on-wire", 0, func() bool { return len(st.wire) >= 1 })
+				// let both never-answered requests reach the wire first
+				vsched.WaitFor("two-on-wire", st.srvObj(), func() bool { return len(st.wire) >= 2 })
+				gcancel()
+				vsched.WaitFor("abandoned-returned", st.srvObj(), func() bool { return gone.Returned })
 				bad := 0
 				for i := 0; i < N; i++ {
-					res := &callResult{ID: 4 + 2*(i%1000)}
+					res := &callResult{ID: 6 + 2*(i%1000)}
 					st.call(context.Background(), res)
 					if !ownResult(res) {
 						bad++
